@@ -228,7 +228,7 @@ Proof.
   unfold parse_apply. intro H.
   apply bind_ok in H as (s1 & E1 & H). apply bind_ok in H as (s2 & E2 & H).
   pose proof (stage_proto_ok _ _ E1) as (P1c & P1h & _ & P1u & P1).
-  pose proof (stage_host_ok _ _ E2) as (P2c & _ & P2u & _ & P2e & P2n & P2h).
+  pose proof (stage_host_ok _ _ E2) as (P2c & _ & P2u & _ & P2e & P2n & P2h & _).
   destruct (stage_port_facts s2) as (P3c & _ & P3u & P3e).
   rewrite stage_client_spec in H. rewrite P3c, P2c, P1c in H.
   (* environ of s1 relative to s *)
